@@ -177,7 +177,10 @@ class Environment:
             to a file at: '~/Downloads/{environment.name}_trace.json'
         '''
         self._terminated = False
-        self._trace = trace
+        # A run started from within an Event's action must not switch
+        # off the trace of the run it is nested in.
+        outer_trace = self._trace if self._active_runs > 0 else False
+        self._trace = trace or outer_trace
 
         # Each run has its own terminate Event: a run started from
         # within an Event's action must not end the run it is nested in.
@@ -201,6 +204,7 @@ class Environment:
             self._terminated = self._active_runs <= 0
             if self._trace:
                 self._export_trace()
+            self._trace = outer_trace
 
     def step(self):
         '''Execute a scheduled Event with the highest priority.
